@@ -245,6 +245,9 @@ def run_tlc(module, cfg=None, env=None, workers=None, timeout=1800, simulate=Non
         cmd = ['java', '-XX:+UseSerialGC' if str(workers) == '1' else '-XX:+UseParallelGC', '-Xss16m']
         if deque:
             cmd.append('-Dtlc2.tool.queue.IStateQueue=StateDeque')
+        # TLC makes an empty tlc-<number> directory under java.io.tmpdir on every start: keep it inside the work
+        # directory so that it goes away with it instead of piling up in /tmp
+        cmd.append(f'-Djava.io.tmpdir={work}')
         cmd += ['-cp', JAR, 'tlc2.TLC', '-noGenerateSpecTE', '-metadir', str(work / 'states'),
                 '-config', cfg_name]
         cmd += ['-workers', str(workers or 'auto')]
